@@ -210,6 +210,35 @@ Theorem C12_subscriber_fan_out_routing : forall indicate mtu_of s eatt conn h v,
 Proof. exact subscriber_fan_out_routing. Qed.
 Print Assumptions C12_subscriber_fan_out_routing.
 
+(* fan-out independence (notify_subscribers / indicate_subscribers, also with value=None where
+   each bearer's task reads the value for its own bearer): for every order of the subscriber
+   table and every set of bearers whose read fails, the bearers that get the PDU are exactly
+   the subscribed ones minus those; a fault on one bearer changes nothing for another *)
+Theorem C12_fan_out_independent : forall indicate mtu_of s h rv,
+  NoDup (map fst s) ->
+  notify_or_indicate_subscribers_dyn indicate mtu_of s h rv
+  = flat_map (fun b => match rv b with
+                       | Some v => [(b, kind_op indicate, h, truncate (mtu_of b) v)]
+                       | None => []
+                       end)
+             (filter (fun b => subscribed (kind_bit indicate) s b h) (map fst s)).
+Proof. exact fan_out_independent. Qed.
+Print Assumptions C12_fan_out_independent.
+
+Theorem C12_healthy_bearer_served : forall indicate mtu_of s h rv b v,
+  NoDup (map fst s) -> In b (map fst s) -> subscribed (kind_bit indicate) s b h = true -> rv b = Some v ->
+  In (b, kind_op indicate, h, truncate (mtu_of b) v) (notify_or_indicate_subscribers_dyn indicate mtu_of s h rv).
+Proof. exact healthy_bearer_served. Qed.
+Print Assumptions C12_healthy_bearer_served.
+
+(* a sequential fan-out that lets the first failure leave the loop does not have this property *)
+Theorem C12_fan_out_sequential_refuted :
+  exists s rv, NoDup (map fst s) /\
+    fan_out_sequential false (fun _ => 23) s 5 rv (map fst s)
+    <> notify_or_indicate_subscribers_dyn false (fun _ => 23) s 5 rv.
+Proof. exact fan_out_sequential_refuted. Qed.
+Print Assumptions C12_fan_out_sequential_refuted.
+
 (* end to end, no well-formedness hypothesis left: whatever add_services was given *)
 Theorem C12_client_sees_database : forall ss mtu, 23 <= mtu -> specs_ok ss = true -> incl_idx_ok 0 ss = true ->
   total_size ss <= 0xFFFE ->
@@ -235,10 +264,8 @@ Print Assumptions C12_client_sees_database.
 (* ---------------------------------------------------------------- the model matches the source (regenerated on every run)
    Gen/C12Shape.v is written by tools/translate/c12_shape.py from the current bumble sources:
    the control-flow skeleton of the 31 anchored functions and 63 constants of their arithmetic.
-   They must equal the tables the model was written from (skeletons_match also accepts the two
-   functions touched by the repair D12e in their unrepaired form: then the known finding D12e is
-   reported by the oracle) ... *)
-Theorem C12_skeletons_match_source : skeletons_match src_skeletons = true.
+   They must equal the tables the model was written from ... *)
+Theorem C12_skeletons_match_source : skeletons_eqb src_skeletons model_skeletons = true.
 Proof. vm_compute. reflexivity. Qed.
 Print Assumptions C12_skeletons_match_source.
 
